@@ -73,6 +73,13 @@ package leveldb
 //@   ensures [seq] isnil(err) ==> seq == le64(ik, len(ik)-8) >> 8
 //@   ensures [kind] isnil(err) ==> uint64(kt) == le64(ik, len(ik)-8) & 255
 
+// (C19: the entries Recover copies into a rebuilt table are exactly the parseable ones - values and deletion markers
+// alike; a rebuild that dropped the markers would bring deleted keys back from older tables)
+//@ func validInternalKey
+//@   props C15 C19
+//@   mode bv
+//@   ensures [C15,C19:valid-means-parseable-value-or-deletion] result <==> (len(ik) >= 8 && (le64(ik, len(ik)-8) & 255) <= 1)
+
 //@ func (*iComparer).Compare
 //@   props C15 C01
 //@   mode bv
@@ -289,6 +296,24 @@ package leveldb
 //@   ensures [C10:one-reply-per-request] recvd(db.writeMergedC) - old(recvd(db.writeMergedC)) == sent(db.writeMergeC) - old(sent(db.writeMergeC))
 //@   ensures [C10:ack-iff-merged] (recvd(db.writeAckC) - old(recvd(db.writeAckC))) == (recvdv(db.writeMergedC, true) - old(recvdv(db.writeMergedC, true)))
 
+// C10 / C18 / C09: a writer waiting for the write lock - whether it asked to be merged or not - also listens for the
+// DB's persistent error (read-only mode, corruption found by a compaction) and is refused with it at once, without
+// having taken the lock or a reply. (The clauses are anchored on the refusing returns: a select that has lost the
+// arm has lost the anchor, which is reported.)
+//@ func (*DB).putRec
+//@   props C10 C18 C09
+//@   at before stmt return err#2
+//@     assert [C09,C10,C18:a-merging-writer-is-refused-by-the-persistent-error-without-the-lock] held(db.writeLockC) == old(held(db.writeLockC)) && err != nil && sent(db.writeMergeC) == old(sent(db.writeMergeC))
+//@   at before stmt return err#3
+//@     assert [C09,C10,C18:a-non-merging-writer-is-refused-by-the-persistent-error-without-the-lock] held(db.writeLockC) == old(held(db.writeLockC)) && err != nil
+
+//@ func (*DB).Write
+//@   props C10 C18 C09
+//@   at before stmt return err#5
+//@     assert [C09,C10,C18:a-merging-writer-is-refused-by-the-persistent-error-without-the-lock] held(db.writeLockC) == old(held(db.writeLockC)) && err != nil && sent(db.writeMergeC) == old(sent(db.writeMergeC))
+//@   at before stmt return err#6
+//@     assert [C09,C10,C18:a-non-merging-writer-is-refused-by-the-persistent-error-without-the-lock] held(db.writeLockC) == old(held(db.writeLockC)) && err != nil && sent(db.writeMergeC) == old(sent(db.writeMergeC))
+
 // Close takes the write lock for good (the closed DB owns it); SetReadOnly and the persistent-error state of
 // compactionError park it in db.compWriteLocking.
 //@ func (*DB).Close
@@ -313,7 +338,7 @@ package leveldb
 // compactionError is the background goroutine that owns the error state; in its persistent-error state it
 // takes the write lock and parks it in db.compWriteLocking until close.
 //@ func (*DB).compactionError
-//@   props C09
+//@   props C09 C18
 //@   requires [lk-parked] db.compWriteLocking ==> held(db.writeLockC) >= 1
 //@   touches held(db.writeLockC)
 //@   loop @noerr
@@ -322,7 +347,7 @@ package leveldb
 //@     invariant [lk-parked] db.compWriteLocking ==> held(db.writeLockC) >= 1
 //@   loop 2
 //@     invariant [lk-parked] db.compWriteLocking ==> held(db.writeLockC) >= 1
-//@     invariant [C09:a-read-only-request-is-never-held-as-a-transient-error] err != ErrReadOnly
+//@     invariant [C09,C18:a-read-only-request-is-never-held-as-a-transient-error] err != ErrReadOnly
 //@   loop 3
 //@     invariant [lk-parked] db.compWriteLocking ==> held(db.writeLockC) >= 1
 
